@@ -27,7 +27,7 @@ AccountAccepts(r) ==
     IN /\ Len(r.roots) = 2
        /\ heap[b].t = C!MPROOF /\ heap[s].t = C!MPROOF
        /\ LET blk == heap[b].r[1]  st == heap[s].r[1] IN
-          /\ P!CheckBlockHeader(heap, info, blk, r.blockhash)
+          /\ P!CheckBlockHeaderState(heap, info, blk, r.blockhash)
           /\ Len(heap[blk].r) >= 3 /\ Len(heap[heap[blk].r[3]].r) = 2
           /\ C!HashAt(heap, info, st, 0) = P!StateHashOf(heap, info, blk)
           /\ heap[st].t = C!ORD /\ Len(heap[st].r) >= 2
@@ -45,7 +45,9 @@ Failed(r) ==
     CASE r.op = "proof" ->
             LET heap == HeapOf(r.cells) IN Verdict(r, P!CheckProof(heap, C!InfoAll(heap), r.proof, r.want))
       [] r.op = "header" ->
-            LET heap == HeapOf(r.cells)  info == C!InfoAll(heap)  ok == P!CheckBlockHeader(heap, info, r.root, r.want) IN
+            LET heap == HeapOf(r.cells)  info == C!InfoAll(heap)
+                ok == IF Has(r, "store") /\ r.store = 1 THEN P!CheckBlockHeaderState(heap, info, r.root, r.want)
+                      ELSE P!CheckBlockHeader(heap, info, r.root, r.want) IN
             Verdict(r, ok)
             \cup Clause("state_hash_extracted_ok", (ok /\ Has(r.out, "ok") /\ Has(r.out, "state")) => r.out.state = P!StateHashOf(heap, info, r.root))
       [] r.op = "account" -> Verdict(r, AccountAccepts(r))
